@@ -1463,6 +1463,7 @@ package cache
 
 //@ func (*shardedMap).evictMostExpired
 //@   props C12
+//@   replay evict backend:=sharded
 //@   requires repOK(c) && keysInShard(c) && evictFraction >= 0.0 && evictFraction <= 1.0
 //@   ensures [C12.evict.subset] (forall h uint64 :: hasH(c, h) ==> old(hasH(c, h)) && ent(c, h) == old(ent(c, h))) && entriesKept()
 //@   ensures [C12.evict.order] forall h1 uint64 :: forall h2 uint64 :: old(hasH(c, h1)) && !hasH(c, h1) && hasH(c, h2) ==> old(ent(c, h1)).E <= old(ent(c, h2)).E
@@ -1474,6 +1475,7 @@ package cache
 
 //@ func (*shardedMap).evictLeastCounter
 //@   props C12
+//@   replay evict backend:=sharded
 //@   requires repOK(c) && keysInShard(c) && evictFraction >= 0.0 && evictFraction <= 1.0
 //@   ensures [C12.evict.subset] (forall h uint64 :: hasH(c, h) ==> old(hasH(c, h)) && ent(c, h) == old(ent(c, h))) && entriesKept()
 //@   ensures [C12.evict.order] forall h1 uint64 :: forall h2 uint64 :: old(hasH(c, h1)) && !hasH(c, h1) && hasH(c, h2) ==> old(ent(c, h1)).C <= old(ent(c, h2)).C
@@ -1489,8 +1491,10 @@ package cache
 //@   like (*shardedMap).evictLeast subst TraitEntry=TraitEntryOf[V] shardedMap=shardedMapOf[V] evictLeastEntry=evictLeastEntry
 //@ func (*shardedMapOf[V]).evictMostExpired
 //@   like (*shardedMap).evictMostExpired subst TraitEntry=TraitEntryOf[V] shardedMap=shardedMapOf[V]
+//@   replay evict backend:=shardedof
 //@ func (*shardedMapOf[V]).evictLeastCounter
 //@   like (*shardedMap).evictLeastCounter subst TraitEntry=TraitEntryOf[V] shardedMap=shardedMapOf[V]
+//@   replay evict backend:=shardedof
 
 // The sync.Map backend: entries are collected in the Range callback under the key bytes of the entry (sKeyedOK:
 // equal to the key it is stored under), sorted and deleted by key.
@@ -1522,6 +1526,7 @@ package cache
 
 //@ func (*syncMap).evictMostExpired
 //@   props C12
+//@   replay evict backend:=syncmap
 //@   requires sRepOK(c) && sKeyedOK(c) && evictFraction >= 0.0 && evictFraction <= 1.0
 //@   ensures [C12.sm.evict.subset] (forall s string :: sHas(c, s) ==> old(sHas(c, s)) && sGet(c, s) == old(sGet(c, s))) && entriesKept()
 //@   ensures [C12.sm.evict.order] forall a string :: forall b string :: old(sHas(c, a)) && !sHas(c, a) && sHas(c, b) ==> old(sEnt(c, a)).E <= old(sEnt(c, b)).E
@@ -1530,6 +1535,7 @@ package cache
 
 //@ func (*syncMap).evictLeastCounter
 //@   props C12
+//@   replay evict backend:=syncmap
 //@   requires sRepOK(c) && sKeyedOK(c) && evictFraction >= 0.0 && evictFraction <= 1.0
 //@   ensures [C12.sm.evict.subset] (forall s string :: sHas(c, s) ==> old(sHas(c, s)) && sGet(c, s) == old(sGet(c, s))) && entriesKept()
 //@   ensures [C12.sm.evict.order] forall a string :: forall b string :: old(sHas(c, a)) && !sHas(c, a) && sHas(c, b) ==> old(sEnt(c, a)).C <= old(sEnt(c, b)).C
